@@ -573,6 +573,7 @@ func main() {
 		depth = 8
 	}
 	erace()
+	ereal()
 	explore(5*time.Second, 2*time.Second, depth, false)
 	explore(30*time.Second, 10*time.Second, depth-1, false)
 	explore(7*time.Second, 3*time.Second, depth, true)
@@ -599,6 +600,7 @@ func main() {
 	}
 	res.Info["bounds"] = map[string]any{"depth": depth, "events": "tick x {ok, slow-ok(11 s), 404, 500, slow-500, timeout}, wait 1 s, wait 31 s, proxy-detected failure; breaker-centred alphabet: tick x {ok, 500, timeout, refuse (3 attempts), refuse then the round's context ends during the retry delay}, waits, proxy-detected failure", "intervals": "(5s,2s) depth d; (30s,10s), (1s,0.5s), (2s,1s) depth d-1; breaker-centred alphabet: (7s,3s) depth d, (1s,0.5s) depth d-1; thorough adds (61s,30s)",
 		"liveness": "from every reached state: works-again continuation (first real probe within 150 s, then healthy) and all-failing continuation (gap between real probes <= 150 s)", "state_dedup": "none"}
+	res.Info["E-real"] = "the production checker (its own http.Client and transport) against a real listener whose health endpoint answers after 0.5 s / 3 s (check_timeout 2 s) and 6 s (check_timeout 8 s): healthy inside the timeout, offline outside"
 	res.Info["rule"] = "every history is executed on a fresh real repository + health checker + health client + breaker + retry handler under a frozen virtual clock; asynchronous recovery callbacks are run to quiescence by the controlled scheduler; status, failure count, NextCheckTime-LastChecked, real probe count and callback count compared after every event"
 	res.Assume("time owned through the vclock seam in internal/adapter/health, core/retry.go and discovery/repository.go", "real sockets and http.Client timeouts are replaced by a scripted HTTPClient (their classification is exercised through STACK in C04/C20)",
 		"the health client's retry delays (100/200 ms) count as elapsed at once (vclock.DelayContext) and do not move the clock")
